@@ -81,4 +81,34 @@ def targets(ctx):
         case["route"] = draw(st.sampled_from(["kwargs", "kwargs", "setattr"]))
         return case
 
-    return [Target("corpus_values", make_eval(c), strategy=strat(), quick=700, thorough=8000, time_quick=70)]
+    # fixed probe of a known finding that the corpus / grammar exclude by construction
+    def probe_cases():
+        yield {"probe": "map_of_wrapper"}
+
+    def probe_ev(case):
+        from ..build import Corpus
+        from ..engine import Guarded, guard
+
+        pc = Corpus("probe_mapwrap.proto", "probe_mapwrap")
+        cls = pc.bp("MapWrap")
+        fails = []
+        try:
+            m = guard("build", lambda: cls(m={"k": 5}))
+            b = guard("bytes", bytes, m)
+            try:
+                ref = pc.rf("MapWrap").FromString(b)
+                if dict((k, v.value) for k, v in ref.m.items()) != {"k": 5}:
+                    fails.append(Failure("map_of_wrapper_encoding", "probe|map_of_wrapper|encoding", f"reference reads {ref!r:.100} from {b.hex()}"))
+            except Exception as e:  # noqa: BLE001
+                fails.append(Failure("map_of_wrapper_encoding", "probe|map_of_wrapper|encoding", f"reference rejects {b.hex()}: {e}"))
+            m2 = guard("parse", cls().parse, b)
+            if m2.m != {"k": 5}:
+                fails.append(Failure("map_of_wrapper_roundtrip", "probe|map_of_wrapper|roundtrip", f"{m2.m!r}"))
+        except Guarded as g:
+            fails.append(Failure("map_of_wrapper_raises", f"probe|map_of_wrapper|raises_{g.where}", str(g)))
+        return Eval(fails, nontrivial=True, labels=["probe"])
+
+    return [
+        Target("corpus_values", make_eval(c), strategy=strat(), quick=700, thorough=8000, time_quick=70),
+        Target("known_finding_probes", probe_ev, cases=probe_cases, exhaustive=True, shard_cases=False),
+    ]
